@@ -3,7 +3,9 @@
    Labels are [vec nat] (0-based module index inside the model, S _ at the interface); all identities are over Q with
    setoid equality; [lab_lt n K lb] = the labels of the n nodes lie in 0..K-1; [sym_on n W] = W symmetric. *)
 From Coq Require Import QArith List Arith ZArith Permutation Lia.
-From BCT Require Import Base.Mat Base.SumQ Base.ListX Model.Modularity Proofs.ModularitySums Proofs.ModularityQ.
+From BCT Require Import Base.Mat Base.SumQ Base.ListX Model.Modularity Model.ModularityProb Proofs.ModularitySums
+  Proofs.ModularityQ Proofs.ModularityGain Proofs.ModularityRun Proofs.ModularityRunSign Proofs.ModularityRunB
+  Proofs.ModularityProb Proofs.ModularityBound.
 Import ListNotations.
 Open Scope Q_scope.
 
@@ -110,6 +112,118 @@ Theorem C02_run_finetune_und_consistent : forall rows g ci moves,
   let r := run_finetune_und rows g ci moves in ret_q r = ret_qdef r.
 Proof. exact run_finetune_und_consistent. Qed.
 
+(* ==== WHOLE RUNS (every input, gamma, level count and recorded move lists; floats only choose moves / level count) ====
+   [sym_rows rows] = the input matrix is symmetric; [rowsW rows] = the input as the model holds it;
+   [labels_exact n l k] = l has one label per node and the labels form exactly the set 1..k;
+   [ret_ci r / ret_q r / ret_qdef r] = returned labels / returned q / definitional quality, ON THE ORIGINAL MATRIX, of the
+   returned labels (reduced fractions: the equality is Leibniz);
+   [level_pair_ok n Qof l] = level l (labels of the ORIGINAL nodes, q) has labels exactly 1..k and q = Qred (Qof labels). *)
+
+(* ---- modularity_louvain_und: ci[h-1], q[h-1]; the code always computes one level more than it returns, so a computed
+   level is returned as soon as two levels were computed (otherwise ci[0] = 1..n is returned, with q[0] = -1) ---- *)
+Theorem C02_louvain_und_run_q : forall rows g lv, sym_rows rows -> (2 <= length lv)%nat ->
+  let r := run_louvain_und rows g lv in ret_q r = ret_qdef r.
+Proof. exact louvain_und_run_q. Qed.
+Theorem C02_louvain_und_run_labels : forall rows g lv, sym_rows rows ->
+  let r := run_louvain_und rows g lv in exists k, labels_exact (length rows) (ret_ci r) k.
+Proof. exact louvain_und_run_labels. Qed.
+(* the hypothesis "two levels were computed" follows from the code's own stopping rule in the domain of the property:
+   the modularity of ANY partition of a symmetric non-negative network is >= -gamma/2 (0 <= gamma <= 2) ... *)
+Theorem C02_Qund_lower_bound : forall n K W g lb, sym_on n W -> nonneg_on n W -> 0 < stot n W -> 0 <= g -> g <= 2 ->
+  lab_lt n K lb -> - (g * (1 # 2)) <= Qund n W g lb.
+Proof. exact Qund_lower_bound. Qed.
+(* ... so q[1] - q[0] = q[1] + 1 >= 1/20 for gamma <= 19/10 and the rule q[h] - q[h-1] < 1e-10 cannot stop the loop at the
+   first level. [stop_rule_ok qs] = the exact q's of the computed levels obey the loop: all but the last were retained,
+   the last was not; [level_qs r] = the q's of the computed levels *)
+Theorem C02_louvain_und_run_q_domain : forall rows g lv, sym_rows rows -> nonneg_rows rows ->
+  0 < stot (length rows) (rowsW rows) -> 0 <= g -> g <= 19 # 10 -> lv <> [] ->
+  stop_rule_ok (level_qs (run_louvain_und rows g lv)) ->
+  let r := run_louvain_und rows g lv in ret_q r = ret_qdef r.
+Proof. exact louvain_und_run_q_domain. Qed.
+(* hierarchy=True: every computed (hence every retained) level is a consistent pair on the original network *)
+Theorem C02_louvain_und_run_levels : forall rows g lv, sym_rows rows ->
+  Forall (level_pair_ok (length rows) (Qund (length rows) (rowsW rows) g)) (fst (run_louvain_und rows g lv)).
+Proof. exact louvain_und_run_levels. Qed.
+
+(* ---- modularity_louvain_und_sign: at least one level is always executed, the LAST one is returned (after np.unique) ---- *)
+Theorem C02_louvain_und_sign_run_q : forall rows g qt lv, sym_rows rows -> lv <> [] ->
+  let r := run_louvain_sign rows g qt lv in ret_q r = ret_qdef r.
+Proof. exact louvain_sign_run_q. Qed.
+Theorem C02_louvain_und_sign_run_labels : forall rows g qt lv,
+  let r := run_louvain_sign rows g qt lv in exists k, labels_exact (length rows) (ret_ci r) k.
+Proof. exact louvain_sign_run_labels. Qed.
+Theorem C02_louvain_und_sign_run_levels : forall rows g qt lv, sym_rows rows ->
+  Forall (level_pair_ok (length rows) (Qsign (length rows) (rowsW rows) g (qtype_of qt))) (fst (run_louvain_sign rows g qt lv)).
+Proof. exact louvain_sign_run_levels. Qed.
+
+(* ---- community_louvain, all four built-in objectives, W directed or undirected (the objective matrix is symmetrised),
+   any initial partition: the last pass is returned; q/s for modularity / potts, q for the negative objectives ---- *)
+Theorem C02_community_louvain_run_q : forall rows g kind ci lv, lv <> [] ->
+  let r := run_community_louvain rows g kind ci lv in ret_q r = ret_qdef r.
+Proof. exact community_louvain_run_q. Qed.
+Theorem C02_community_louvain_run_labels : forall rows g kind ci lv, lv <> [] ->
+  let r := run_community_louvain rows g kind ci lv in exists k, labels_exact (length rows) (ret_ci r) k.
+Proof. exact community_louvain_run_labels. Qed.
+Theorem C02_community_louvain_run_levels : forall rows g kind ci lv,
+  Forall (cl_pair_ok kind (length rows) (rowsW rows) g) (fst (run_community_louvain rows g kind ci lv)).
+Proof. exact community_louvain_run_levels. Qed.
+(* [ret_qdef] of run_community_louvain is Qbuiltin kind: Qdir (modularity), Qpotts, Qneg_obj true/false. The objective
+   matrix the code builds (incl. B = (B+B.T)/2) yields exactly that quantity ... *)
+Theorem C02_obj_builtin : forall kind n W g lb,
+  qnorm kind (stot n W) (obj n (B_builtin kind n W g) lb) == Qbuiltin kind n W g lb.
+Proof. exact obj_builtin. Qed.
+(* ... and for 'negative_sym' / 'negative_asym' that quantity is the signed modularity of the definition with qtype
+   'gja' / 'sta' (whenever the network has positive weights: the code divides by s0) *)
+Theorem C02_louvainB_negative_sym : forall n W g lb, ~ stot n (pospart W) == 0 ->
+  obj n (B_builtin 2 n W g) lb == Qsign n W g Qgja lb.
+Proof. exact louvainB_negative_sym. Qed.
+Theorem C02_louvainB_negative_asym : forall n W g lb, ~ stot n (pospart W) == 0 ->
+  obj n (B_builtin 3 n W g) lb == Qsign n W g Qsta lb.
+Proof. exact louvainB_negative_asym. Qed.
+
+(* ---- modularity_finetune_und_sign (and the move-list replay of probtune): whole run ---- *)
+Theorem C02_run_finetune_sign_consistent : forall rows g qt ci moves,
+  sym_on (length rows) (of_rows 0 rows) ->
+  let r := run_finetune_sign rows g qt ci moves in ret_q r = ret_qdef r.
+Proof. exact run_finetune_sign_consistent. Qed.
+Theorem C02_run_finetune_sign_labels : forall rows g qt ci moves,
+  let r := run_finetune_sign rows g qt ci moves in exists k, labels_exact (length rows) (ret_ci r) k.
+Proof. exact run_finetune_sign_labels. Qed.
+
+(* ---- modularity_probtune_und_sign with its random draws as an explicit stream (Model/ModularityProb.v): for EVERY
+   permutation, draw stream, p and oracle outcome of the deterministic nodes, a completed run returns the definitional
+   Qsign of the labels it returns, labelled exactly 1..k; a stream of the shape the loop consumes always completes ---- *)
+Theorem C02_probtune_run_q : forall rows g qt ci p perm ds orc r,
+  sym_on (length rows) (of_rows 0 rows) ->
+  run_probtune rows g qt ci p perm ds orc = Some r ->
+  pt_q r = pt_qdef r /\ exists k, labels_exact (length rows) (pt_ci r) k.
+Proof. exact probtune_run_q. Qed.
+Theorem C02_probtune_run_completes : forall rows g qt ci p perm ds orc, stream_ok p perm ds orc ->
+  exists r, run_probtune rows g qt ci p perm ds orc = Some r.
+Proof. exact probtune_run_completes. Qed.
+
+(* non-vacuity of the whole-run theorems: concrete multi-level runs meeting every hypothesis (Proofs/ModularityRun*.v) *)
+Example C02_louvain_und_run_nonvacuous :
+  sym_rows ex_rows /\ (2 <= length ex_lv)%nat /\ 0 < stot (length ex_rows) (rowsW ex_rows) /\
+  louvain_und_good 1 (stot (length ex_rows) (rowsW ex_rows)) (length ex_rows) (rowsW ex_rows) ex_lv /\
+  ret_ci (run_louvain_und ex_rows 1 ex_lv) = [1; 1; 1; 2; 2; 2]%nat /\
+  ret_q (run_louvain_und ex_rows 1 ex_lv) = 5 # 14 /\ ret_qstart (run_louvain_und ex_rows 1 ex_lv) = - (17 # 98).
+Proof. exact louvain_und_run_nonvacuous. Qed.
+Example C02_louvain_und_sign_run_nonvacuous :
+  sym_rows ex_sign_rows /\ ex_sign_lv <> [] /\
+  ret_ci (run_louvain_sign ex_sign_rows 1 0 ex_sign_lv) = [1; 1; 2; 2]%nat /\
+  ret_q (run_louvain_sign ex_sign_rows 1 0 ex_sign_lv) = ret_qdef (run_louvain_sign ex_sign_rows 1 0 ex_sign_lv).
+Proof. destruct louvain_sign_run_nonvacuous as (A & B & _ & C & D & _). repeat split; assumption. Qed.
+Example C02_probtune_run_nonvacuous :
+  let rows := [[0; 2; 1; 0]; [2; 0; 0; -(1)]; [1; 0; 0; 3]; [0; -(1); 3; 0]] in
+  sym_on 4 (of_rows 0 rows) /\
+  stream_ok (9 # 20) [2; 0; 3; 1]%nat [DSample (1 # 10); DInt 0; DSample (1 # 2); DSample (3 # 4); DSample (9 # 10)]
+            [Some 1%nat; None; None] /\
+  run_probtune rows 1 0 [1; 2; 3; 4]%Z (9 # 20) [2; 0; 3; 1]%nat
+               [DSample (1 # 10); DInt 0; DSample (1 # 2); DSample (3 # 4); DSample (9 # 10)] [Some 1%nat; None; None]
+  = Some ([(2, (true, 0)); (0, (false, 1))]%nat, ([2; 2; 1; 3]%nat, (29 # 504, 29 # 504))).
+Proof. exact probtune_run_nonvacuous. Qed.
+
 (* ---- modularity_louvain_dir as it is (W never replaced by W1): the statement FAILS ---- *)
 Theorem C02_louvain_dir_q_refuted : ~ louvain_dir_q_full_statement.
 Proof. exact louvain_dir_q_refuted. Qed.
@@ -148,3 +262,21 @@ Print Assumptions C02_spectral_labels_partial.
 Print Assumptions C02_run_finetune_dir_consistent.
 Print Assumptions C02_run_finetune_und_consistent.
 Print Assumptions C02_louvain_dir_q_refuted.
+Print Assumptions C02_louvain_und_run_q.
+Print Assumptions C02_louvain_und_run_labels.
+Print Assumptions C02_louvain_und_run_levels.
+Print Assumptions C02_louvain_und_sign_run_q.
+Print Assumptions C02_louvain_und_sign_run_labels.
+Print Assumptions C02_louvain_und_sign_run_levels.
+Print Assumptions C02_community_louvain_run_q.
+Print Assumptions C02_community_louvain_run_labels.
+Print Assumptions C02_community_louvain_run_levels.
+Print Assumptions C02_obj_builtin.
+Print Assumptions C02_louvainB_negative_sym.
+Print Assumptions C02_louvainB_negative_asym.
+Print Assumptions C02_run_finetune_sign_consistent.
+Print Assumptions C02_run_finetune_sign_labels.
+Print Assumptions C02_probtune_run_q.
+Print Assumptions C02_probtune_run_completes.
+Print Assumptions C02_Qund_lower_bound.
+Print Assumptions C02_louvain_und_run_q_domain.
